@@ -147,10 +147,12 @@ class MboxMixin(object):
         for name, other in self.cm.items():
             if not other.alive:
                 continue
-            want = 1 if other.sub is m else 0
+            want = 1 if (other.sub is m and not other.closing) else 0
             self.ev["c02_fanout_conn"] += 1
-            if other.sub is m:
+            if other.sub is m and not other.closing:
                 self.ev["c02_fanout_subscribed"] += 1
+            if other.sub is m and other.closing:
+                self.ev["c02_fanout_next_to_closing_subscriber"] += 1
             if per.get(name, 0) != want:
                 props = {"C02"}
                 if want == 0 and other.side not in m.side_names()[:2]:
